@@ -1233,6 +1233,10 @@ def compare_tables(want, got):
         if len(wg) != len(gg):
             return f"rg {g}: columns want {len(wg)} got {len(gg)}"
         for c, (wc, gc) in enumerate(zip(wg, gg)):
+            if wc is None or gc is None:
+                if wc is not gc:
+                    return f"rg {g} col {c}: column could not be decoded"
+                continue
             if len(wc) != len(gc):
                 return f"rg {g} col {c}: rows want {len(wc)} got {len(gc)}"
             for r, (a, b) in enumerate(zip(wc, gc)):
